@@ -14,23 +14,14 @@ import vlib, gdlib
 from gdlib import NAMES, CSIZE, NCOMP, TSIZE, ISFLOAT, EXT, ENCS
 
 PID = "C03"
-KEY_TEXTPAD = "putdata/text/complex/write-past-end-pads-with-0-instead-of-0;0"
-KEY_MPLEX = "putdata/mplex/unequal-spf/tests-B[i]-copies-C[i*spfB/spfA]"
+KEY_TEXTPAD = "regression/putdata/text/complex/write-past-end-pads-with-0-instead-of-0;0"
+KEY_MPLEX = "regression/putdata/mplex/unequal-spf/tests-B[i]-copies-C[i*spfB/spfA]"
 KEY_HERE_OOP = "putdata/GD_HERE/out-of-place-encoding/position-is-read-side"
 KEY_HERE_SIE = "putdata/GD_HERE/sie/position-is-last-sample-written"
-KEY_OOP_READ = "getdata-after-putdata/out-of-place-encoding/old-file-open/read-restarts-empty-temporary"
-KEY_BZ2_EXTRA = "putdata/bzip2/overwrite-then-write-past-end/extra-zero-samples-appended"
-KEY_SIE_STALE = "putdata/sie/write-at-current-position-after-unflushed-append/stale-fstat-size-truncates"
+KEY_OOP_READ = "regression/getdata-after-putdata/out-of-place-encoding/old-file-open/read-restarts-empty-temporary"
+KEY_BZ2_EXTRA = "regression/putdata/bzip2/overwrite-then-write-past-end/extra-zero-samples-appended"
+KEY_SIE_STALE = "regression/putdata/sie/write-at-current-position-after-unflushed-append/stale-fstat-size-truncates"
 KEY_SIE_ZEROLEN = "putdata/sie/overwrite-last-sample-of-one-sample-record-after-single-record-write/zero-length-record"
-
-
-def load_staged_known(chk):
-    p = os.path.join(vlib.VERIF, "known_findings.d", chk.pid + ".json")
-    if os.path.exists(p):
-        for f in json.load(open(p)).get("findings", []):
-            if f.get("property") == chk.pid and f.get("status", "open") == "open" and \
-                    f["key"] not in [k["key"] for k in chk.known]:
-                chk.known.append(f)
 
 
 def f32(v):
@@ -148,8 +139,6 @@ def gen_history(rng, t, enc, nops):
                 for i in range(p, p + len(data)):
                     written[i] = True
         elif r < 0.8:
-            if enc == "bzip2" and ops and ops[-1][0] in ("G", "S"):
-                ops.append(("F",))      # bzip2 backward seek in read mode is C02's subject (DESIGN 9, item 9)
             ops.append(("G",))
         elif r < 0.88:
             ops.append(("F",))
@@ -157,15 +146,12 @@ def gen_history(rng, t, enc, nops):
             ops.append(("S",))
         else:
             ops.append(("R",))
-    if enc == "bzip2" and ops and ops[-1][0] in ("G", "S"):
-        ops.append(("F",))
     ops.append(("G",))
     return ops
 
 
 def main():
     chk = vlib.Check(PID)
-    load_staged_known(chk)
     rng = chk.rng
     proved = chk.prove("Properties_C03")
     chk.cov["trusted_base"] += [
@@ -201,14 +187,7 @@ def main():
             off = rng.choice([0, 0, 1, 3])
             spf = rng.choice([1, 1, 2, 3])
             ops = gen_history(rng, t, enc, rng.randint(3, 9 if enc != "sie" else 12))
-            if enc in ("gzip", "bzip2", "lzma") and k % 2:
-                # keep clear of the read-with-pending-write defect so that the write path is judged strictly
-                o2 = []
-                for op in ops:
-                    if op[0] == "G" and (not o2 or o2[-1][0] != "F"):
-                        o2.append(("F",))
-                    o2.append(op)
-                ops = o2
+
             d = os.path.join(root, "h%d" % len(cases)); os.mkdir(d)
             with open(os.path.join(d, "format"), "w") as fh:
                 fh.write("/ENCODING %s\n%s\n/FRAMEOFFSET %d\na RAW %s %d\n" % (enc, gdlib.sex_directive(sex), off, NAMES[t], spf))
@@ -226,8 +205,7 @@ def main():
                     a = array_write(a, p, data, zero)
                     ml.append("P %d %s" % (p, gdlib.hexs([x for v in data for x in v])))
                 elif op[0] == "G":
-                    # bzip2: no over-read (its reader returns stale bytes past the end: C02's subject)
-                    n = len(a) + 3 if enc != "bzip2" else max(1, len(a))
+                    n = len(a) + 3
                     sc.append("get a %d %d 0 %d" % (t, off, n))
                     expect.append(("get", [x for v in a for x in v]))
                     ml.append("G 0 %d" % n)
@@ -245,7 +223,7 @@ def main():
             cases.append({"dir": d, "t": t, "sex": sex, "enc": enc, "off": off, "spf": spf, "script": sc, "expect": expect,
                           "final": [x for v in a for x in v], "first": len(script), "codec": codec})
             script += sc
-            cods = [] if codec is None else ["oop", "oopdoc"] if codec == "oop" else ["sie", "siefix"] if codec == "sie" else [codec]
+            cods = [] if codec is None else [codec]
             mlines.append(["%s %d %s %d - ; %s" % (cd, t, sex, max(1, 64 // TSIZE[t]), " ; ".join(ml)) for cd in cods])
     # one process per history, so that a crash (the SIE defects below can corrupt a file to the point
     # where the reader overruns its buffer) is attributed to the history that caused it
@@ -334,8 +312,6 @@ def main():
                 want = gdlib.enc_samples(t, sex, c["final"])
                 if payload != want:
                     bad = "final data %s, flat array layout %s" % (payload.hex()[:160], want.hex()[:160])
-                    if enc == "bzip2" and payload.startswith(want) and not any(payload[len(want):]) and len(payload) - len(want) <= 4 * TSIZE[t]:
-                        key = KEY_BZ2_EXTRA
             if not bad and others:
                 bad = "stray files left after close: %s" % others
         # the models
@@ -355,32 +331,7 @@ def main():
         if c["crashed"]:
             bad = "gdrun died: " + c["crash_info"]
             key = "crash/%s" % enc
-        if bad and enc == "sie" and len(mo) > 1 and key != KEY_SIE_ZEROLEN:
-            # downstream of the stale-size defect (wrong data, a failed put, an unreadable empty file, a
-            # crash in the reader): the faithful model deviates from the repaired model, i.e. the stale
-            # fstat size was used and mattered, and the repaired model satisfies the oracle
-            dg, df, derr = mo[1]
-            exp2 = gdlib.sie_decode(t, sex, bytes.fromhex(df or ""))[1]
-            if mo[0] != mo[1] and dg == spec_gets and exp2 == c["final"]:
-                key = KEY_SIE_STALE
         if bad:
-            if enc == "text" and t >= 10:
-                key = KEY_TEXTPAD
-            if enc in ("gzip", "bzip2", "lzma") and len(mo) > 1 and mo[0] != mo[1] and key != KEY_BZ2_EXTRA:
-                # the history reads through a handle with a pending out-of-place write while the old file is
-                # open (the code-faithful model deviates from the documented behaviour there), and the
-                # documented behaviour (finish before reading) satisfies the oracle: the recorded defect.
-                # (what exactly is lost depends on the codec's seek on a write handle)
-                dg, df, derr = mo[1]
-                if dg == spec_gets and df == gdlib.enc_samples(t, sex, c["final"]).hex():
-                    key = KEY_OOP_READ
-            if enc == "sie" and agree == 0 and len(mo) > 1 and key != KEY_SIE_ZEROLEN:
-                # the library does what the faithful cursor model (stale fstat size) does, and the
-                # model with a flushing _GD_GetNRec satisfies the oracle: the recorded defect
-                dg, df, derr = mo[1]
-                exp2 = gdlib.sie_decode(t, sex, bytes.fromhex(df or ""))[1]
-                if dg == spec_gets and exp2 == c["final"]:
-                    key = KEY_SIE_STALE
             spec_bad.setdefault(key, []).append((c, bad))
         elif mbad:
             model_bad.setdefault(key, []).append((c, mbad))
